@@ -440,12 +440,12 @@ Definition not_whitelist (s : sqlst) (fp : bytes) (w : list token) : res bool :=
         if cat_is t0 b_sqli_token_type_bare_word && cat_is t1 b_sqli_token_type_comment
            && negb (beq v0 x2f) then Ok false
         else if cat_is t0 b_sqli_token_type_number && cat_is t1 b_sqli_token_type_comment
-                && negb (beq v0 x2f) then Ok true
+                && beq v0 x2f then Ok true
         else if cat_is t0 b_sqli_token_type_number && cat_is t1 b_sqli_token_type_comment then
           if 2 <? n_tokens (st s) then Ok true
           else
             ch <- get "notWhitelist:input[tokenVec[0].len]" (input s) (t_len t0) ;;
-            if code ch <=? 32 then Ok true
+            if (code ch <=? 32) || is_byte_white ch then Ok true
             else
               sl <- (if beq ch x2f then
                        (c <- get "notWhitelist:input[tokenVec[0].len+1]" (input s) (t_len t0 + 1) ;;
